@@ -8,7 +8,10 @@ import (
 	"testing"
 
 	"github.com/ChainSafe/gossamer/lib/runtime"
+	"github.com/ChainSafe/gossamer/lib/runtime/storage"
 	"github.com/ChainSafe/gossamer/pkg/scale"
+	"github.com/ChainSafe/gossamer/pkg/trie"
+	inmemory_trie "github.com/ChainSafe/gossamer/pkg/trie/inmemory"
 )
 
 // c09Store is a map-backed runtime.Storage: storageAppend only calls Get and Put.
@@ -27,7 +30,146 @@ func (s *c09Store) Put(key, value []byte) error {
 
 // line: `app <cur|absent> <item>`  -> `<stored value hex>` (or `err`, `panic`)
 //       `seq <cur|absent> <item>,<item>,...` -> value after appending every item in order
+// ---------------------------------------------------------------- runs on a real TrieState
+
+var c09TsKeys = []string{"61", "62", "6162"}
+
+// c09RunTS: `ts|op;op;…` on a storage.TrieState over an empty in-memory trie.  Ops: `a K ITEM`
+// (storageAppend), `p K VAL` (Put), `g K`, `b`/`r`/`c` (Start/Rollback/CommitTransaction), `cap K`
+// (keep the slice Get returned), `snap` (outside transactions: continue on a snapshot of the trie
+// and keep the old trie).  After every op: the value of every key in the current view | the
+// CURRENT bytes of the captured slices | the values in the kept old trie.
+func c09RunTS(line string) string {
+	ts := storage.NewTrieState(inmemory_trie.NewEmptyTrie())
+	depth := 0
+	caps := map[string][]byte{}
+	capSet := map[string]bool{}
+	var old trie.Trie
+	show := func() string {
+		cur := make([]string, len(c09TsKeys))
+		cp := make([]string, len(c09TsKeys))
+		od := make([]string, len(c09TsKeys))
+		for i, k := range c09TsKeys {
+			cur[i] = vhHex(ts.Get(vhUnhex(k)))
+			cp[i], od[i] = ".", "."
+			if capSet[k] {
+				cp[i] = vhHex(caps[k])
+			}
+			if old != nil {
+				od[i] = vhHex(old.Get(vhUnhex(k)))
+			}
+		}
+		return strings.Join(cur, "/") + "|" + strings.Join(cp, "/") + "|" + strings.Join(od, "/")
+	}
+	var outs []string
+	for _, o := range strings.Split(strings.TrimPrefix(line, "ts|"), ";") {
+		f := strings.Fields(o)
+		res := vhCatch(func() string {
+			switch {
+			case len(f) == 3 && f[0] == "a":
+				if err := storageAppend(ts, vhUnhex(f[1]), vhUnhex(f[2])); err != nil {
+					return "err"
+				}
+			case len(f) == 3 && f[0] == "p":
+				if err := ts.Put(vhUnhex(f[1]), vhUnhex(f[2])); err != nil {
+					return "err"
+				}
+			case len(f) == 2 && f[0] == "g":
+			case len(f) == 1 && f[0] == "b":
+				ts.StartTransaction()
+				depth++
+			case len(f) == 1 && f[0] == "r":
+				ts.RollbackTransaction()
+				depth--
+			case len(f) == 1 && f[0] == "c":
+				ts.CommitTransaction()
+				depth--
+			case len(f) == 2 && f[0] == "cap":
+				caps[f[1]] = ts.Get(vhUnhex(f[1])) // the very slice, not a copy
+				capSet[f[1]] = true
+			case len(f) == 1 && f[0] == "snap":
+				if depth == 0 {
+					old = ts.Trie()
+					ts = storage.NewTrieState(old.(*inmemory_trie.InMemoryTrie).Snapshot())
+				}
+			default:
+				return "bad-op"
+			}
+			return show()
+		})
+		outs = append(outs, res)
+		if res == "panic" || res == "bad-op" || res == "err" {
+			break
+		}
+	}
+	return strings.Join(outs, ";")
+}
+
+// c09GenTS draws a well-nested run with several appends per key (so that stored slices have
+// spare capacity), nested transactions that are rolled back or committed, captures and snapshots.
+func c09GenTS(r *vhRng) string {
+	var ops []string
+	depth := 0
+	item := func() string {
+		switch r.Intn(4) {
+		case 0:
+			return vhHex(c09Compact(big.NewInt(0))) // an empty byte string item: 00
+		case 1:
+			return vhHex(append(c09Compact(big.NewInt(4)), r.Bytes(4)...))
+		default:
+			return vhHex(r.Bytes(1 + r.Intn(3)))
+		}
+	}
+	key := func() string { return c09TsKeys[r.Pick(0, 0, 0, 1, 2)] }
+	if r.Chance(1, 3) { // an existing list just below a prefix-width boundary, or an odd value
+		switch r.Intn(3) {
+		case 0:
+			ops = append(ops, "p 61 "+vhHex(append(c09Compact(big.NewInt(int64(r.Pick(61, 62, 63)))), r.Bytes(r.Intn(4))...)))
+		case 1:
+			ops = append(ops, "p 61 "+vhHex(r.Bytes(1+r.Intn(3))))
+		default:
+			ops = append(ops, "p 62 "+vhHex(append(c09Compact(big.NewInt(2)), r.Bytes(2)...)))
+		}
+	}
+	for i, n := 0, 4+r.Intn(14); i < n; i++ {
+		switch x := r.Intn(20); {
+		case x < 9:
+			ops = append(ops, "a "+key()+" "+item())
+		case x < 12 && depth < 4:
+			ops = append(ops, "b")
+			depth++
+		case x < 14 && depth > 0:
+			ops = append(ops, "r")
+			depth--
+		case x < 16 && depth > 0:
+			ops = append(ops, "c")
+			depth--
+		case x < 18:
+			ops = append(ops, "cap "+key())
+		case x == 18 && depth == 0:
+			ops = append(ops, "snap")
+		default:
+			ops = append(ops, "g "+key())
+		}
+	}
+	for depth > 0 { // close what is open, mostly by rolling back
+		if r.Chance(2, 3) {
+			ops = append(ops, "r")
+		} else {
+			ops = append(ops, "c")
+		}
+		depth--
+		if r.Bool() {
+			ops = append(ops, "a "+key()+" "+item())
+		}
+	}
+	return "ts|" + strings.Join(ops, ";")
+}
+
 func c09Run(line string) string {
+	if strings.HasPrefix(line, "ts|") {
+		return c09RunTS(line)
+	}
 	f := strings.Fields(line)
 	if len(f) != 3 {
 		return "bad-op"
@@ -160,6 +302,9 @@ func c09Cur(r *vhRng) string {
 }
 
 func c09Gen(r *vhRng) string {
+	if r.Chance(1, 4) {
+		return c09GenTS(r)
+	}
 	if r.Chance(1, 8) {
 		k := 1 + r.Intn(5)
 		items := make([]string, k)
